@@ -127,6 +127,11 @@ where
                 if nullable {
                     new_ctx.or(&new_is.items[&(pidx, dot)]);
                 }
+                if new_ctx.iter_set_bits(..).next().is_none() {
+                    // Nothing can follow `s_ridx` here (the rest of the production derives no
+                    // string), so there are no LR(1) items to add.
+                    continue;
+                }
 
                 for ref_pidx in grm.rule_to_prods(s_ridx).iter() {
                     if new_is.add(*ref_pidx, SIdx(StorageT::zero()), &new_ctx) {
